@@ -1,4 +1,5 @@
 import DendroModel.Model.C06
+import DendroModel.Model.C06Proto
 open DendroModel DendroModel.C06
 
 /-! line protocol of C06 (see harness/props/c06.py):
@@ -110,12 +111,35 @@ def pSched : P String := do
   pure (join (rRun (Q.ofFrac theta) (runParallel r f assign arrival files)
               ++ rRun (Q.ofFrac theta) (runSerial r f files)))
 
+/-- `async THETA R il ia uw BLOCKING NW NCH choice* NARR arrival* NFILES (NTREES trec*)*`
+    -> NW (K taken*)*  then `hang` | res [dump] -/
+def pAsync : P String := do
+  let theta ← pFrac
+  let r ← pRooting; let f ← pFlags
+  let blocking ← pBool
+  let nw ← pNat
+  let nc ← pNat; let choices ← pRep pNat nc
+  let na ← pNat; let arrival ← pRep pNat na
+  let nf ← pNat
+  let files ← pRep (do let k ← pNat; pRep pTRec k) nf
+  let rest ← get
+  if !rest.isEmpty then failure
+  let fin := finalP blocking nw files.length choices
+  let taken := rList (fun w => rList (fun k => [toString k]) w.taken) fin.ws
+  let res := match runAsync r f blocking nw choices arrival files with
+    | none => ["hang"]
+    | some x => rRun (Q.ofFrac theta) x
+  pure (join (taken ++ res))
+
 def handle (ws : List String) : String :=
   match ws with
   | "hist" :: rest => match pHist.run rest with
     | some (s, _) => s
     | none => "bad-op"
   | "sched" :: rest => match pSched.run rest with
+    | some (s, _) => s
+    | none => "bad-op"
+  | "async" :: rest => match pAsync.run rest with
     | some (s, _) => s
     | none => "bad-op"
   | _ => "bad-op"
